@@ -32,6 +32,11 @@ func runC20(c *Ctx) {
 // back-edge check: from start, is the loop head (any block in heads) reachable
 // without passing a sat node?  Returns the position of the jump back.
 func reachesHeadAvoiding(g *core.Graph, start core.Point, heads map[*cfg.Block]bool, sat func(ast.Node) bool) (token.Pos, []token.Pos, bool) {
+	return reachesHeadAvoidingStop(g, start, heads, nil, sat)
+}
+
+// reachesHeadAvoidingStop additionally cuts paths at the blocks in stop.
+func reachesHeadAvoidingStop(g *core.Graph, start core.Point, heads, stop map[*cfg.Block]bool, sat func(ast.Node) bool) (token.Pos, []token.Pos, bool) {
 	var badPos token.Pos
 	var badTrace []token.Pos
 	found := false
@@ -71,7 +76,7 @@ func reachesHeadAvoiding(g *core.Graph, start core.Point, heads map[*cfg.Block]b
 				badTrace = tr
 				break
 			}
-			if seen[s] || !s.Live {
+			if seen[s] || !s.Live || stop[s] {
 				continue
 			}
 			seen[s] = true
